@@ -72,6 +72,10 @@ func StreamJsonAsReaderAndReturn[T any, V any](
 	// Create a new context with cancel function allowing to cancel the streaming in case of errors
 	ctx, cancelFunc := context.WithCancelCause(ctx)
 
+	// The stream is consumed under its own child context, so that it can be stopped when the consumer returns
+	// (the consumer's context must stay alive, e.g. for reading an http response body after the consumer returned)
+	streamCtx, cancelStream := context.WithCancel(ctx)
+
 	// Creating both ends of the pipe
 	pr, pw := io.Pipe()
 	go func() {
@@ -79,7 +83,7 @@ func StreamJsonAsReaderAndReturn[T any, V any](
 
 		first := true
 
-		err := stream.ConsumeWithErr(ctx, func(v T) error {
+		err := stream.ConsumeWithErr(streamCtx, func(v T) error {
 
 			// Write start of array or delimiter if not the first element
 			if first {
@@ -139,5 +143,7 @@ func StreamJsonAsReaderAndReturn[T any, V any](
 	// The consumer is done with the reader, close it so that the writer goroutine fails its pending write and exits
 	// instead of blocking forever in case the consumer returned without reading the pipe to its end
 	_ = pr.Close()
+	// and stop the materialization in case it is blocked reading from its source
+	cancelStream()
 	return ret, err
 }
